@@ -58,8 +58,25 @@ def _range(ref, i):
     return max(0.0, lo), hi
 
 
+def _icdf_at(ref, a, u, vals):
+    """Quantile of variable a at probability u given the values of its conditioner (tail-aware)."""
+    c = ref.cond[a]
+    p = ref.params_at(a, None if c is None else vals[c])
+    fam = ref.dims[a]["fam"]
+    return float(R.icdf(fam, u, **p)) if u < 0.5 else float(R.isf(fam, 1.0 - u, **p))
+
+
+def _cdf_at(ref, a, t, vals):
+    c = ref.cond[a]
+    p = ref.params_at(a, None if c is None else vals[c])
+    return float(R.cdf(ref.dims[a]["fam"], t, **p))
+
+
 def ref_marginal(ref, j, x, what="pdf"):
-    """Marginal pdf / cdf of variable j at x by nested quadrature over its ancestors only."""
+    """Marginal pdf / cdf of variable j at x by nested quadrature over its ancestors only.
+    Each ancestor is integrated in its own probability scale, int f_a(t) h(t) dt = int_0^1 h(F_a^-1(u)) du,
+    which stays well-conditioned for heavy-tailed conditioners (a plain quad over [0, q(1-1e-13)] of a log-normal with
+    sigma 2.2 was 5 % off - a false alarm of the first version of this oracle)."""
     anc = _ancestors(ref, j)
     err = [0.0]
 
@@ -74,22 +91,13 @@ def ref_marginal(ref, j, x, what="pdf"):
         if k == len(anc):
             return leaf(vals)
         a = anc[k]
-        lo, hi = _range(ref, a)
 
-        def integrand(t):
+        def integrand(u):
             v2 = dict(vals)
-            v2[a] = t
-            X = np.zeros((1, ref.n_dim))
-            for kk, vv in v2.items():
-                X[0, kk] = vv
-            return float(ref.cond_pdf(a, X)[0]) * rec(k + 1, v2)
+            v2[a] = _icdf_at(ref, a, u, vals)
+            return rec(k + 1, v2)
 
-        mid = []
-        if ref.cond[a] is None:
-            p = ref.params_at(a, None)
-            mid = [float(R.icdf(ref.dims[a]["fam"], q, **p)) for q in (0.05, 0.5, 0.95)]
-            mid = [m for m in mid if lo < m < hi]
-        v, e = _quad(integrand, lo, hi, mid or None)
+        v, e = _quad(integrand, 0.0, 1.0, [0.01, 0.5, 0.99])
         err[0] += abs(e)
         return v
 
@@ -97,7 +105,8 @@ def ref_marginal(ref, j, x, what="pdf"):
 
 
 def ref_joint_cdf(ref, x):
-    """F(x) by integrating over the conditioning (internal) variables only; leaves enter through their conditional cdfs."""
+    """F(x) by integrating over the conditioning (internal) variables only (each in its probability scale, up to
+    F_a(x_a)); leaves enter through their conditional cdfs."""
     d = ref.n_dim
     internal = sorted({c for c in ref.cond if c is not None})
     leaves = [i for i in range(d) if i not in internal]
@@ -114,16 +123,16 @@ def ref_joint_cdf(ref, x):
                 out *= float(ref.cond_cdf(l, X)[0])
             return out
         a = internal[k]
+        top = _cdf_at(ref, a, float(x[a]), vals)
+        if top <= 0:
+            return 0.0
 
-        def integrand(t):
+        def integrand(u):
             v2 = dict(vals)
-            v2[a] = t
-            X = np.zeros((1, d))
-            for kk, vv in v2.items():
-                X[0, kk] = vv
-            return float(ref.cond_pdf(a, X)[0]) * rec(k + 1, v2)
+            v2[a] = _icdf_at(ref, a, u, vals)
+            return rec(k + 1, v2)
 
-        v, e = _quad(integrand, 0.0, float(x[a]))
+        v, e = _quad(integrand, 0.0, top, [q for q in (0.01, 0.5, 0.99) if q < top] or None)
         err[0] += abs(e)
         return v
 
